@@ -262,3 +262,44 @@ def replay_batch(chk, run_, st, model, verdict=c02_verdict, extra=None):
         if v:
             bad = True
     return bad, sc, observed
+
+
+def repair_graph(sc):
+    """keeps only the spending graph of a scenario (which transaction spends which coin id) and rebuilds everything else
+    so that every transaction is an ordinary, balanced, always-true-covenant MEL transfer.  Used to replay counterexamples
+    of kernels that look at the graph only (input lookup / duplicate detection)."""
+    true_cov = {'covhash_of': 'true'}
+    for c in sc['coins']:
+        c.update({'covhash': true_cov, 'value': '1000000', 'denom': 'MEL', 'adata': ''})
+        c['height'] = min(c.get('height', 0), max(sc['height'] - 1, 0))
+    by_name = dict((t['name'], t) for t in sc['txs'])
+    base = {}
+    for c in sc['coins']:
+        base[(str(c['id']['txhash']), c['id']['index'])] = 1000000
+    done = {}
+
+    def settle(t, depth=0):
+        if t['name'] in done or depth > len(sc['txs']):
+            return
+        total = 0
+        for i in t['inputs']:
+            ref = i['txhash']
+            if 'txhash_of' in ref and ref['txhash_of'] in by_name and ref['txhash_of'] != t['name']:
+                src = by_name[ref['txhash_of']]
+                settle(src, depth + 1)
+                if i['index'] < len(src['outputs']):
+                    total += int(src['outputs'][i['index']]['value'])
+            else:
+                total += base.get((str(ref), i['index']), 0)
+        n = len(t['outputs'])
+        vals = [1] * n
+        if n:
+            vals[0] = max(total - (n - 1), 0)
+        t.update({'kind': 0, 'fee': str(0 if n else total), 'covenants': ['true'], 'data': ''})
+        for o, v in zip(t['outputs'], vals):
+            o.update({'covhash': true_cov, 'value': str(v), 'denom': 'MEL', 'adata': ''})
+        done[t['name']] = True
+    for t in sc['txs']:
+        settle(t)
+    sc['fee_multiplier'] = '0'
+    return sc
